@@ -258,7 +258,7 @@ def phase_mc_pmc(ctx, thorough):
     w = vlib.NCPU // 2 if thorough else 3
     r = ctx.tlc_expect_ok(['pmc'], 'MC_PMC.tla', 'MC_PMC.cfg', coverage=True, timeout=900, workers=w)
     ctx.log('MC_PMC (2 GPUs, 3 serial migrations of <= 2 chunks, frames re-used): %d distinct states, depth %d' % (r.distinct, r.depth))
-    zeros = r.coverage_zero()
+    zeros = c19cp.final_cov_zero(r)
     r = ctx.tlc_expect_ok(['pmc'], 'MC_PMC.tla', 'MC_PMC_conc.cfg', timeout=900, workers=w)
     ctx.log('MC_PMC_conc (3 overlapping migrations, both directions and queued): %d distinct states' % r.distinct)
     r = ctx.tlc_expect_ok(['pmc'], 'MC_PMC.tla', 'MC_PMC_live.cfg', timeout=900, workers=w)
@@ -288,7 +288,7 @@ def phase_mc_mig(ctx, thorough):
     w = vlib.NCPU // 2 if thorough else 3
     r = ctx.tlc_expect_ok(['pmc'], 'MC_Migration.tla', 'MC_Migration.cfg', coverage=True, timeout=900, workers=w)
     ctx.log('MC_Migration (2 GPUs, 3 pages, 2 requests, intended design): %d distinct states, depth %d' % (r.distinct, r.depth))
-    zeros = r.coverage_zero()
+    zeros = c19cp.final_cov_zero(r)
     if zeros:
         raise vlib.Infra('vacuity: actions never taken in MC_Migration: %s' % zeros)
     # the as-implemented reply slot is expected to lose a reply in the model (known finding C19-mmu-reply-overwritten)
